@@ -95,7 +95,7 @@ type streamDef struct {
 	sem        semT
 	noSum      bool // histogram of an instrument that may record negative values: the sum is not reported
 	hasFilter  bool
-	filter     []string // allowed keys
+	filter     []string // allowed keys; an entry "k=v" allows key k only when its value is v (a filter may look at values)
 }
 
 func (d *streamDef) sameConfig(o *streamDef) bool {
@@ -117,7 +117,7 @@ func (d *streamDef) filtered(s *symbolT) string {
 	var keep []kvT
 	for _, kv := range s.kvs {
 		for _, f := range d.filter {
-			if kv.k == f {
+			if kv.k == f || kv.k+"="+kv.v == f {
 				keep = append(keep, kv)
 			}
 		}
